@@ -816,7 +816,9 @@ func runC08(c *Ctx) {
 			_, serr := stdjson.Marshal(v)
 			c.Oracle("cycle-is-error/"+name, lt.name+" containing itself", fmt.Sprintf("err=%s panic=%s", errT(gerr), gp), fmt.Sprintf("err=%v", serr != nil), gp == "" && gerr != nil && serr != nil, "")
 		}
-	}, func(k int, rng *rand.Rand) string { return "recursive list type case " + c08ListTypes[k%len(c08ListTypes)].name }, nil)
+	}, func(k int, rng *rand.Rand) string {
+		return "recursive list type case " + c08ListTypes[k%len(c08ListTypes)].name
+	}, nil)
 
 	// pointer types that contain only themselves: the compiler follows them without end
 	c.RunCases("nonstruct", len(c08NonStruct), func(c *Ctx, k int, rng *rand.Rand) {
